@@ -52,6 +52,13 @@ def register(R):
             out['submission_task_class_matches_the_method'] = (B(isinstance(cls, ClassRef) and cls.cinfo.name == task_cls), ['C18'])
             if h is not None:
                 f = h.fields
+                us = c.a_subscribers
+                sv = f.get('subscribers')
+                sv = sv.val if isinstance(sv, Opt) else sv
+                if isinstance(us, Opt):
+                    # C08: the subscribers given by the user are the ones recorded (none given: a fresh empty list)
+                    fresh_empty = isinstance(sv, Ref) and sv.oid not in c.old.st.heap and c.new.obj(sv).kind == 'list' and not c.new.obj(sv).items
+                    out['subscribers_recorded_as_given'] = (z3.If(us.is_none, B(bool(fresh_empty)), B(sv is us.val)), ['C08'])
                 out['call_args_record_the_users_bucket_and_key'] = (B(f.get('bucket') is c.a_bucket and f.get('key') is c.a_key), ['C15', 'C18'])
                 out['returns_the_future_of_the_submitted_transfer'] = (B(c.result is sub[0].result), ['C18'])
         return out, sub
@@ -71,6 +78,13 @@ def register(R):
             user = ua.val if isinstance(ua, Opt) else ua
             out['transfer_works_on_its_own_copy_of_the_argument_map'] = (B(isinstance(ea, Ref) and not (isinstance(user, Ref) and ea.oid == user.oid)), ['C15', 'C18'])
             out['fileobj_recorded'] = (B(h.fields.get('fileobj') is c.a_fileobj), ['C01', 'C15'])
+        # CRC32 is the default algorithm exactly when the client asks for checksums ('when_supported')
+        sd = calls(c.trace, 'set_default_checksum_algorithm')
+        mode = [e for e in c.trace if e.kind == 'ext' and e.name == 'client_config..request_checksum_calculation']
+        rc = z3.String('request_checksum_calculation')
+        if len(sub) == 1:
+            out['crc32_default_applied_iff_the_client_asks_for_checksums'] = (
+                z3.If(rc == z3.StringVal('when_supported'), B(len(sd) == 1), B(len(sd) == 0)), ['C15'])
         if isinstance(ua, Opt) and isinstance(ua.val, Ref):
             out['callers_argument_map_is_left_untouched'] = (z3.Implies(z3.Not(ua.is_none), same_map(c.old.st, ua.val, c.new.st, ua.val)), ['C15', 'C18'])
         return out
